@@ -512,6 +512,15 @@ func (p c16) Run(w *mon.Worker, idx int) mon.Result {
 	} else if expr == "." {
 		res.Nontrivial = false
 	}
+	if stale && e7 == nil && len(gparents.A) == n {
+		// where elements report the index they were recorded with, the value two steps above a node at depth 2 is still
+		// the derived sequence itself (not the sequence it was derived from)
+		for i := 0; i < n; i++ {
+			if len(infos[i].path) == len(prefix)+2 && len(gparents.A[i].A) == 1 && !ref.EqualNum(root, gparents.A[i].A[0]) {
+				return fail("global: node %d (path %s): `parent | parent` returns %s, which is not the value it sits in: %s\n f = %s\n doc = %s", i, ref.PathString(infos[i].path), clipStr(gparents.A[i].A[0].JSON(), 160), clipStr(root.JSON(), 160), full, input)
+			}
+		}
+	}
 	for i := 0; i < n && violation == ""; i++ {
 		in := infos[i]
 		v := vals.A[i]
